@@ -50,7 +50,7 @@ def unknown_ids(rng: random.Random, noise: bool) -> list[int]:
     t = _table()
     pool = [0, t.max_id + 1, t.max_id + 2, 124, 127, 128, 255, 256, 300, 1000, 16383, 16384, 65535]
     if not noise:
-        pool += [65536, 2**21, 2**28, 2**32 + 1]
+        pool += [65536, 2**21, 2**28, 2**32 + 1, 2**35 - 1, 2**35, 2**42 + 7, 2**63 - 1]
     return [i for i in pool if i not in t.by_id]
 
 
@@ -189,6 +189,13 @@ def dispatch_oracle(ix: Index, scn: dict) -> list[Violation]:
             close_dispatch()
     close_dispatch()
 
+    # "ignored with no other effect": whatever arrives, every complete frame received while the connection is healthy is
+    # handed on before the next read - an undefined type number must not stall the frames behind it
+    from .framing import delivered_equals_complete
+
+    first_bad = min([sq for c in ix.conns for sq, _e, _t in ix.fatal.get(c, [])] + list(ix.closed_seq.values()) + [float("inf")])
+    for v in delivered_equals_complete(ix, until_seq=first_bad):
+        out.append(Violation("frames-stalled" if v.rule == "lost-or-late" else "frames-" + v.rule, v.disc, "with undefined type ids in the stream: " + v.msg))
     # replies on the wire, seen by the device (independent decoder / responder)
     seen = [(ev[4]["name"], ev[4]["payload"]) for ev in ix.h if ev[3] == "dev_rx" and ev[4]["name"] in ("PingResponse", "GetTimeResponse", "DisconnectResponse")]
     # client-originated pings are answered by the device with PingResponse, never by the client: no confusion
